@@ -377,7 +377,12 @@ class Sym:
                     var = s['var']
                     for s1, v in self.ev_init(var['init'], s0, var['t']):
                         s1.env[('v', var['id'])] = v
-                        conds.append((s1, v))
+                        if s1.throw is not None:
+                            conds.append((s1, v))
+                            continue
+                        # the condition is the declared variable converted to bool (a pointer against null, a class
+                        # object through its own operator bool), not the value itself
+                        conds.extend(self.ev(s['c'], s1))
                 else:
                     conds = self.ev(s['c'], s0)
                 for s1, c in conds:
@@ -974,6 +979,30 @@ class Sym:
             return ('op', '+', base, ('k', c, 'int'))
         return ('op', op, a, b)
 
+    def variant_get(self, callee, var, st):
+        """std::get<I>(v): the alternative when v.index() == I, std::bad_variant_access otherwise (decided from the path
+        condition when it fixes the index, forked when it does not)."""
+        info = _variant_get_info(callee['id'])
+        if info is None:
+            return None
+        I, n, idx_fid = info
+        idx = ('call', idx_fid, var, ())
+        possible = set(range(n))
+        for c, val in st.conds:
+            if isinstance(c, tuple) and len(c) == 4 and c[0] == 'op' and c[1] in ('==', '!=') and c[2] == idx and isinstance(c[3], tuple) and c[3][0] == 'k':
+                eq = (c[1] == '==') == bool(val)
+                possible &= ({c[3][1]} if eq else (set(range(n)) - {c[3][1]}))
+        value = ('call', callee['id'], None, (var,))
+        if possible == {I}:
+            return [(st, value)]
+        bad = st.fork() if I in possible else st
+        bad.conds.append((('op', '==', idx, ('k', I, 'int')), False))
+        bad.throw = 'std::bad_variant_access'
+        if I not in possible:
+            return [(bad, None)]
+        st.conds.append((('op', '==', idx, ('k', I, 'int')), True))
+        return [(st, value), (bad, None)]
+
     def ev_cond(self, e, st):
         out = []
         for s, c in self.ev(e['c'], st):
@@ -1417,6 +1446,10 @@ class Sym:
                 m = _re.search(r'\(&\)\[(\d+)\]\)\s*$', callee['id'])
                 if m:
                     return [(st, ('k', int(m.group(1)), 'int'))]
+            if name == 'get' and recv is None and len(args) == 1 and callee['id'].startswith('std::get<') and 'std::variant<' in callee['id']:
+                r = self.variant_get(callee, args[0], st)
+                if r is not None:
+                    return r
             if name in ('find_if', 'find_if_not') and recv is None and len(args) == 3:
                 r = self.search_summary(e, callee, args, st, negate=(name == 'find_if_not'))
                 if r is not None:
@@ -1530,6 +1563,42 @@ class Sym:
             st.contents.setdefault(recv, []).append(o)
             return pre + [(st, ('addr', o))]
         raise Unsupported(f'make_node initialiser form {init.get("k")}')
+
+
+def _variant_get_info(fid):
+    """(I, number of alternatives, id of variant::index) of std::get<I, Ts...>(variant<Ts...>&), or None."""
+    import re
+    m = re.match(r'std::get<(\d+)U?L?L?,', fid)
+    if not m:
+        return None
+    k = fid.rfind('(')
+    depth, pos = 0, None
+    for i in range(len(fid) - 1, -1, -1):
+        if fid[i] == ')':
+            depth += 1
+        elif fid[i] == '(':
+            depth -= 1
+            if depth == 0:
+                pos = i
+                break
+    if pos is None:
+        return None
+    ptype = fid[pos + 1:fid.rfind(')')]
+    v = ptype.replace('const ', '', 1) if ptype.startswith('const ') else ptype
+    v = v.rstrip('&').strip()
+    if not v.startswith('std::variant<'):
+        return None
+    # count top-level template arguments of the variant
+    inner = v[len('std::variant<'):-1]
+    d, n = 0, 1
+    for ch in inner:
+        if ch in '<(':
+            d += 1
+        elif ch in '>)':
+            d -= 1
+        elif ch == ',' and d == 0:
+            n += 1
+    return int(m.group(1)), n, v + '::index() const'
 
 
 def fn_qname(fid):
